@@ -505,4 +505,60 @@ def run(ctx, prog, res):
                 r7.check(nm not in bad, {"fn": nm, "months": len(sets), "evaluations": n_ev}, "C15.R7:%s" % nm, "CompactMonth::%s" % bad.get(nm, ""), lib.where_of(fns7[nm]))
     r7.floor(4)
 
+    # R9 -------------------------------------------------------------------------------------
+    r9 = res.rule("C15.R9", "first_after across months and years: CompactYear::first_after(m, d) is the least member strictly after (m, d) in (month, day) order, CompactCalendar::first_after(date) the least member strictly after the date, also over empty years in between and from a year inside the span that holds nothing later. Both functions, with their closures, are extracted per path from MIR (peval; iterator pipelines read as lists) and evaluated on a small scope: years/calendars holding up to two (thorough: three) members drawn from fixed grids that include month ends, a later month with a smaller day number, neighbouring and distant years, for every query of a grid around them. Queries before the first stored year are not evaluated (that branch goes through `iter`, a stateful from_fn)")
+    fy = prog.fns.get("compact_calendar::CompactYear::first_after")
+    fc = prog.fns.get("compact_calendar::CompactCalendar::first_after")
+    if fy is None or fc is None:
+        r9.anchor_missing("CompactYear::first_after / CompactCalendar::first_after")
+    else:
+        ev9 = peval.Evaluator(prog)
+        deep = ctx.tier == "thorough"
+
+        def year_val(S):
+            ms = [0] * 12
+            for (m, d) in S:
+                ms[m - 1] |= 1 << (d - 1)
+            return ("tuple", [[("tuple", [b]) for b in ms]])
+
+        def cal_val(dates):
+            ys = sorted({d[0] for d in dates})
+            years = [year_val([(m, d) for (y, m, d) in dates if y == yy]) for yy in range(ys[0], ys[-1] + 1)]
+            return ("enum", "CompactCalendar", {"first_year": ys[0], "calendar": years})
+
+        ygrid = [(1, 1), (1, 31), (2, 15), (3, 5), (6, 1), (6, 15), (10, 25), (12, 1), (12, 31)]
+        yq = [(m, d) for m in range(1, 13) for d in (1, 5, 14, 15, 16, 20, 25, 31)]
+        cgrid = [(2019, 5, 1), (2019, 12, 31), (2020, 1, 1), (2020, 6, 15), (2022, 3, 1), (2022, 10, 25)]
+        cq = sorted(set(cgrid) | {(2019, 1, 1), (2019, 4, 30), (2019, 5, 2), (2019, 12, 30), (2020, 1, 2), (2020, 6, 14), (2020, 12, 31), (2021, 6, 1), (2021, 12, 31), (2022, 2, 28), (2022, 3, 2), (2022, 12, 31), (2023, 1, 1), (2030, 1, 1)})
+        bad9 = {}
+        n9 = {"year": 0, "calendar": 0}
+        try:
+            for k in range(0, 4 if deep else 3):
+                for S in itertools.combinations(ygrid, k):
+                    yv = year_val(S)
+                    for (m, d) in yq:
+                        got = ev9.run(fy, [yv, m, d]); n9["year"] += 1
+                        want = min([e for e in S if e > (m, d)], default=None)
+                        g = tuple(got[1][1]) if got is not None else None
+                        if g != want:
+                            bad9.setdefault("year", "year %s: first_after(%d, %d) = %r, the set says %r" % (list(S), m, d, g, want))
+            for k in range(1, 4 if deep else 3):
+                for S in itertools.combinations(cgrid, k):
+                    cv = cal_val(S)
+                    for q in cq:
+                        if q[0] < S[0][0]:
+                            continue
+                        got = ev9.run(fc, [cv, q]); n9["calendar"] += 1
+                        want = min([e for e in S if e > q], default=None)
+                        g = tuple(got[1]) if got is not None else None
+                        if g != want:
+                            bad9.setdefault("calendar", "calendar %s: first_after(%s) = %r, the set says %r" % (list(S), q, g, want))
+        except peval.Unmodelled as ex:
+            r9.fail("C15.R9:unmodelled", "first_after of CompactYear / CompactCalendar cannot be evaluated from its MIR any more (%s): not decided, failing closed" % str(ex)[:300], lib.where_of(fy))
+            bad9 = None
+        if bad9 is not None:
+            r9.check("year" not in bad9, {"fn": "CompactYear::first_after", "evaluations": n9["year"]}, "C15.R9:year", "CompactYear::first_after: %s" % bad9.get("year", ""), lib.where_of(fy))
+            r9.check("calendar" not in bad9, {"fn": "CompactCalendar::first_after", "evaluations": n9["calendar"]}, "C15.R9:calendar", "CompactCalendar::first_after: %s" % bad9.get("calendar", ""), lib.where_of(fc))
+    r9.floor(2)
+
     witness.run_doctests(ctx, prog, res, "C15.W", "the representation cannot be built or read from outside the crate; twins compile", "c15", floor=4)
